@@ -9,6 +9,11 @@ import CLModel.Proofs.Walk
 import CLModel.Proofs.WalkLoc
 import CLModel.Proofs.ParserProgress
 import CLModel.Proofs.FluentWalk
+import CLModel.Parser.C01Sess
+import CLModel.Proofs.C01Sess
+import CLModel.Proofs.C01Dead
+import CLModel.Proofs.C01FluentC
+import CLModel.Proofs.C01Engine
 namespace C01
 open P Rx
 
@@ -142,5 +147,227 @@ example : walk .inc #[35, 100, 101, 102, 105, 110, 101, 32, 97] =
 /-- non-vacuity, DTD: `<!ENTITY a '>` is an entity whose trimmed value span is inverted, (12, 11) -/
 example : walk .dtd #[60, 33, 69, 78, 84, 73, 84, 89, 32, 97, 32, 39, 62] =
     .done [{ kind := .entity, full := 0, s := 0, e := 13, ks := 9, ke := 10, vs := 12, ve := 11 }] := by decide
+
+/-! ## Round 4 -/
+
+open C01M C01P
+
+/-! ### the localizable-only view, for all texts and per format -/
+
+/-- for every text and each of the five regex formats: both views exist (both walks terminate) and the
+    localizable-only view (`list(parser)`) is exactly the Entity/Junk entries of the full view
+    (`list(parser.walk())`), each taken on a FRESH context (`readUnicode`) -/
+theorem localizable_view_eq_filter (f : Fmt) (s : Array Nat) :
+    ∃ es, walk f s = .done es ∧ walkLoc f s = .done (es.filter Entry.localizable) := by
+  have h : ∃ es, walk f s = .done es := by
+    cases f
+    · obtain ⟨es, h, _⟩ := walk_lossless_properties s; exact ⟨es, h⟩
+    · obtain ⟨es, h, _⟩ := walk_lossless_dtd s; exact ⟨es, h⟩
+    · obtain ⟨es, h, _⟩ := walk_lossless_ini s; exact ⟨es, h⟩
+    · obtain ⟨es, h, _⟩ := walk_lossless_inc s; exact ⟨es, h⟩
+    · obtain ⟨es, h, _⟩ := walk_lossless_po s; exact ⟨es, h⟩
+  obtain ⟨es, h⟩ := h
+  exact ⟨es, h, localizable_is_filter f s es h⟩
+
+/-- the same for a context in ANY state (`fel` = `ctx.filter_empty_lines` when the walk starts): the two
+    views of a context in the same state agree, and both leave the context in the same state -/
+theorem ctx_localizable_is_filter (f : Fmt) (s : Array Nat) (fel : Bool) :
+    (walkSt f s true fel).1 = (walkSt f s false fel).1.filterLoc ∧
+    (walkSt f s true fel).2 = (walkSt f s false fel).2 :=
+  walkSt_filter f s fel
+
+/-- `readUnicode(t); list(p.walk()); list(p)` on ONE parser object, all five formats, all texts: the
+    localizable view of the same context is exactly the Entity/Junk entries of the full view.
+    (properties, DTD, ini, PO walks are stateless; `DefinesParser.walk` resets `filter_empty_lines` when a walk
+    starts — /repo 0f5119c.  Before that fix the second walk started from the flag the first one left and the
+    clause failed on `#a b\n\n#filter emptyLines`: finding C01-inc-filter-state-leaks-between-walks, fixed.) -/
+theorem sess_walk_then_iter (f : Fmt) (t : Array Nat) :
+    C01M.run f none [.read t, .walk false, .walk true] = [walk f t, (walk f t).filterLoc] := by
+  cases f <;> simp only [C01M.run, step] <;>
+    (try rw [walkSt_fst_stateless _ (by decide) t true]) <;>
+    rw [(walkSt_filter _ t false).1, (walkSt_fresh _ t).1]
+
+/-- the other order, and any number of walks: every walk of one context gives the entries of a fresh one -/
+theorem sess_iter_then_walk (f : Fmt) (t : Array Nat) :
+    C01M.run f none [.read t, .walk true, .walk false] = [(walk f t).filterLoc, walk f t] := by
+  cases f <;> simp only [C01M.run, step] <;>
+    (try rw [walkSt_fst_stateless _ (by decide) t false (walkSt _ t true false).2]) <;>
+    rw [(walkSt_filter _ t false).1, (walkSt_fresh _ t).1]
+
+/-- positive example (the input of the former finding): `#a b\n\n#filter emptyLines` — the blank lines are
+    Junk in the full view and in the localizable view of the same context -/
+example :
+    C01M.run .inc none [.read #[35, 97, 32, 98, 10, 10, 35, 102, 105, 108, 116, 101, 114, 32, 101, 109, 112, 116, 121, 76, 105, 110, 101, 115],
+      .walk false, .walk true] =
+    [.done [{ kind := .instruction, full := 0, s := 0, e := 4, ks := 1, ke := 4, vs := 1, ve := 4 },
+            { kind := .junk, full := 4, s := 4, e := 6 },
+            { kind := .instruction, full := 6, s := 6, e := 24, ks := 7, ke := 24, vs := 7, ve := 24 }],
+     .done [{ kind := .junk, full := 4, s := 4, e := 6 }]] := by decide +kernel
+
+/-- why the reset matters: WITHOUT it (a walk started with the flag the previous one left, `walkSt … true`)
+    the localizable view of that text has no Junk -/
+example :
+    (walkSt .inc #[35, 97, 32, 98, 10, 10, 35, 102, 105, 108, 116, 101, 114, 32, 101, 109, 112, 116, 121, 76, 105, 110, 101, 115]
+      false false).2 = true ∧
+    (walkSt .inc #[35, 97, 32, 98, 10, 10, 35, 102, 105, 108, 116, 101, 114, 32, 101, 109, 112, 116, 121, 76, 105, 110, 101, 115]
+      true true).1 = .done [] := by decide +kernel
+
+/-- `readUnicode` always starts from a fresh context -/
+theorem sess_read_resets (f : Fmt) (ctx : PCtx) (t : Array Nat) (cs : List Cmd) :
+    C01M.run f ctx (.read t :: cs) = C01M.run f (some (t, false)) cs := rfl
+
+/-- a parser without a loaded context yields nothing (`if not self.ctx: return`), in both views -/
+theorem sess_noctx (f : Fmt) (l : Bool) : C01M.run f none [.walk l] = [.done []] := rfl
+
+/-! ### dead branches (coverage): the late `return white_space` of the three getNext functions -/
+
+/-- base.py:417 — replacing the value of the branch by ANY entry does not change `Parser.getNext` -/
+theorem dead_base_late_whitespace (d : Entry) (c : BaseCfg) (s : Array Nat) (off : Nat) :
+    getNextD d c s off = getNext c s off := getNextD_eq d c s off
+/-- properties.py:107 -/
+theorem dead_props_late_whitespace (d : Entry) (s : Array Nat) (off : Nat) :
+    propsGetNextD d s off = propsGetNext s off := propsGetNextD_eq d s off
+/-- defines.py:91 -/
+theorem dead_defines_late_whitespace (d : Entry) (s : Array Nat) (fel : Bool) (off : Nat) :
+    definesGetNextD d s fel off = definesGetNext s fel off := definesGetNextD_eq d s fel off
+
+/-! ### Fluent: the contract of fluent.syntax as a decidable predicate -/
+
+/-- for every text and every body that satisfies `contractB`, the walk that reads `entry.content` is
+    lossless.  No hypothesis on entry kinds is left: an unknown entry class must be empty by the contract. -/
+theorem fluentC_lossless (s : Array Nat) (body : List FBody) (hc : contractB s body 0 = true) :
+    ((fluentWalkC (some s) body false).map (Entry.all s)).flatten = s.toList := by
+  have hk : ∀ b ∈ body.map (·.b), b.kind = .other → b.s = b.e := by
+    intro b hb ho
+    obtain ⟨x, hx, rfl⟩ := List.mem_map.mp hb
+    exact entryOKB_other (contractB_mem s body 0 hc x hx).1 ho
+  simp only [fluentWalkC, fluentWalkFromC_eq s false body 0 hc]
+  simpa [slice_full] using fluentWalkFrom_all s (body.map (·.b)) 0 (contractB_bodyOK s body 0 hc) (Nat.zero_le _) hk
+
+/-- stronger than the concatenation: the entries are a chain over `[0, len)` — each entry starts where
+    the previous one ended, none is inverted (no character duplicated or reordered) -/
+theorem fluentC_chain (s : Array Nat) (body : List FBody) (hc : contractB s body 0 = true) :
+    Chain 0 (fluentWalkC (some s) body false) s.size := by
+  have hk : ∀ b ∈ body.map (·.b), b.kind = .other → b.s = b.e := by
+    intro b hb ho
+    obtain ⟨x, hx, rfl⟩ := List.mem_map.mp hb
+    exact entryOKB_other (contractB_mem s body 0 hc x hx).1 ho
+  simp only [fluentWalkC, fluentWalkFromC_eq s false body 0 hc]
+  exact fluentWalkFrom_chain s (body.map (·.b)) 0 (contractB_bodyOK s body 0 hc) (Nat.zero_le _) hk
+
+/-- every Fluent entity's key lies inside its own text and so does its value (or it has none) -/
+theorem fluentC_inside (s : Array Nat) (body : List FBody) (l : Bool) (hc : contractB s body 0 = true) :
+    ∀ e ∈ fluentWalkC (some s) body l, EntIn e := by
+  simp only [fluentWalkC, fluentWalkFromC_eq s l body 0 hc]
+  refine fluentWalkFrom_entIn s l (body.map (·.b)) 0 ?_
+  intro b hb hk
+  obtain ⟨x, hx, rfl⟩ := List.mem_map.mp hb
+  exact entryOKB_ent (contractB_mem s body 0 hc x hx).1 hk
+
+/-- the localizable-only view is the Entity/Junk entries of the full view -/
+theorem fluentC_localizable_is_filter (s : Array Nat) (body : List FBody) (hc : contractB s body 0 = true) :
+    fluentWalkC (some s) body true = (fluentWalkC (some s) body false).filter Entry.localizable := by
+  simp only [fluentWalkC, fluentWalkFromC_eq s _ body 0 hc]
+  exact fluentWalkFrom_filter s _ 0
+
+theorem fluentC_noctx (body : List FBody) (l : Bool) : fluentWalkC none body l = [] := rfl
+
+/-- non-vacuity / the seeded regression class: a junk line that is Unicode white-space but not
+    ` \t\r\n` (form feed, newline): it is NOT "white-space only" for the walk, the form feed stays Junk,
+    only the newline is trimmed -/
+example : contractB #[12, 10] [{ b := { kind := .junk, s := 0, e := 2 }, content := [12, 10] }] 0 = true ∧
+    fluentWalkC (some #[12, 10]) [{ b := { kind := .junk, s := 0, e := 2 }, content := [12, 10] }] false =
+      [{ kind := .junk, full := 0, s := 0, e := 1 },
+       { kind := .whitespace, full := 1, s := 1, e := 2, ks := 1, ke := 2, vs := 1, ve := 2 }] := by decide
+
+/-- no-break space around junk: stays inside the Junk entry -/
+example : fluentWalkC (some #[160, 120, 160, 10]) [{ b := { kind := .junk, s := 0, e := 4 }, content := [160, 120, 160, 10] }] false =
+      [{ kind := .junk, full := 0, s := 0, e := 3 },
+       { kind := .whitespace, full := 3, s := 3, e := 4, ks := 3, ke := 4, vs := 3, ve := 4 }] := by decide
+
+/-- negation witness for the contract: a junk whose `content` is not the text of its span (here: shorter)
+    makes the walk lose a character -/
+example : contractB #[120, 121] [{ b := { kind := .junk, s := 0, e := 2 }, content := [32] }] 0 = false ∧
+    ((fluentWalkC (some #[120, 121]) [{ b := { kind := .junk, s := 0, e := 2 }, content := [32] }] false).map
+      (Entry.all #[120, 121])).flatten = #[120, 121].toList := by decide
+
+/-! ### complexity guard: no ambiguous nested quantifier in the parser regexes -/
+
+/-- the regexes the five regex parsers (and the Fluent junk trimming) match with -/
+def parserRegexes : List (String × Re) := [
+  ("Parser.reWhitespace", Gen.Pat.Parser_reWhitespace),
+  ("PropertiesParser.reKey", Gen.Pat.PropertiesParser_reKey),
+  ("PropertiesParser.reComment", Gen.Pat.PropertiesParser_reComment),
+  ("PropertiesParser._escapedEnd", Gen.Pat.PropertiesParser__escapedEnd),
+  ("PropertiesParser._trailingWS", Gen.Pat.PropertiesParser__trailingWS),
+  ("DTDParser.reKey", Gen.Pat.DTDParser_reKey),
+  ("DTDParser.reComment", Gen.Pat.DTDParser_reComment),
+  ("DTDParser.reHeader", Gen.Pat.DTDParser_reHeader),
+  ("IniParser.reComment", Gen.Pat.IniParser_reComment),
+  ("IniParser.reSection", Gen.Pat.IniParser_reSection),
+  ("IniParser.reKey", Gen.Pat.IniParser_reKey),
+  ("DefinesParser.reWhitespace", Gen.Pat.DefinesParser_reWhitespace),
+  ("DefinesParser.reComment", Gen.Pat.DefinesParser_reComment),
+  ("DefinesParser.reKey", Gen.Pat.DefinesParser_reKey),
+  ("DefinesParser.rePI", Gen.Pat.DefinesParser_rePI),
+  ("PoParser.reKey", Gen.Pat.PoParser_reKey),
+  ("PoParser.reComment", Gen.Pat.PoParser_reComment),
+  ("PoParser.reListItem", Gen.Pat.PoParser_reListItem),
+  ("po.reEscape", Gen.Pat.parser_po_reEscape),
+  ("FluentParser.walk[0]", Gen.Pat.parser_fluent_FluentParser_walk_0),
+  ("FluentParser.walk[1]", Gen.Pat.parser_fluent_FluentParser_walk_1)]
+
+/-- DECIDED on the regenerated regexes: every repeat of every parser regex has a body with at most one
+    outcome per state (`Safe`).  A regex edit that introduces an ambiguous nested quantifier
+    (`(a|b+)*`, `(x*)*`, `(a|a)*` …) makes this `decide` fail. -/
+theorem parser_regexes_safe : ∀ p ∈ parserRegexes, Safe p.2 = true := by decide
+
+/-- PROVED for every text: one match attempt of a parser regex at any position explores a search tree of
+    at most `cC r * (len+2)^(dC r)` nodes; constant and degree depend on the regex only -/
+theorem parser_regex_steps_poly (p : String × Re) (hp : p ∈ parserRegexes) (s : Array Nat) (st : St) :
+    steps s p.2 st ≤ cC p.2 * (s.size + 2) ^ dC p.2 :=
+  steps_poly s p.2 (parser_regexes_safe p hp) st
+
+/-- the same for the engine itself: the instrumented copy `matchAtT` of `matchAt` (same result,
+    `matchAtT_result`) makes at most `cC r * (len+2)^(dC r)` calls -/
+theorem parser_regex_match_poly (p : String × Re) (hp : p ∈ parserRegexes) (s : Array Nat) (pos : Nat) :
+    (matchAtT s p.2 pos).2 = matchAt s p.2 pos ∧ (matchAtT s p.2 pos).1 ≤ cC p.2 * (s.size + 2) ^ dC p.2 :=
+  ⟨matchAtT_result s p.2 pos, matchAtT_poly s p.2 (parser_regexes_safe p hp) pos⟩
+
+/-- the degrees are small: the PO string-list item is quadratic (today `18 * (len+2)^2`), the worst one of
+    the table is `DTDParser.reKey` (five repeats in sequence, today `73 * (len+2)^5`) -/
+example : dC Gen.Pat.PoParser_reListItem ≤ 2 ∧ ∀ p ∈ parserRegexes, dC p.2 ≤ 5 := by decide
+
+/-- the seeded regression class: `[ \t\r\n]*"((?:\\[\\trn"]|[^"\n\\]+)*)"` (a `+` inside the starred
+    alternation of `PoParser.reListItem`) is rejected by the criterion -/
+example : Safe (.seq (.rep 0 none true (.cls false [.ch 32, .ch 9, .ch 13, .ch 10])) (.seq (.lit 34) (.seq (.group 1
+    (.rep 0 none true (.alt (.seq (.lit 92) (.cls false [.ch 92, .ch 116, .ch 114, .ch 110, .ch 34]))
+      (.rep 1 none true (.cls true [.ch 34, .ch 10, .ch 92]))))) (.lit 34)))) = false := by decide
+
+/-- and it really is exponential for the engine: on `"` + k × `a` + `!` (no closing quote) the search tree
+    of that regex doubles with every `a`, while the real regex grows linearly -/
+example :
+    let bad : Re := .seq (.lit 34) (.seq (.rep 0 none true (.alt (.seq (.lit 92) (.cls false [.ch 92]))
+      (.rep 1 none true (.cls true [.ch 34, .ch 10, .ch 92])))) (.lit 34))
+    let good : Re := .seq (.lit 34) (.seq (.rep 0 none true (.alt (.seq (.lit 92) (.cls false [.ch 92]))
+      (.cls true [.ch 34, .ch 10, .ch 92]))) (.lit 34))
+    (steps #[34, 97, 97, 97, 97, 33] bad ⟨0, []⟩, steps #[34, 97, 97, 97, 97, 97, 33] bad ⟨0, []⟩,
+     steps #[34, 97, 97, 97, 97, 97, 97, 33] bad ⟨0, []⟩) = (289, 577, 1153) ∧
+    (steps #[34, 97, 97, 97, 97, 33] good ⟨0, []⟩, steps #[34, 97, 97, 97, 97, 97, 33] good ⟨0, []⟩,
+     steps #[34, 97, 97, 97, 97, 97, 97, 33] good ⟨0, []⟩) = (39, 45, 51) := by decide +kernel
+
+/-- NOT covered by the criterion: `DTDParser.rePE` ends with `(?:[ \t]*(?:<!--…-->[ \t\r\n]*)*\n?)?`, a
+    repeat whose body ends with an undelimited `[ \t\r\n]*` (and contains the comment's lazy repeat, which is
+    delimited by the two characters `--`, not one).  Only its nesting depth is pinned. -/
+example : Safe Gen.Pat.DTDParser_rePE = false := by decide
+
+/-- nesting depth of unbounded repeats -/
+def repDepth : Re → Nat
+  | .seq a b | .alt a b => max (repDepth a) (repDepth b)
+  | .group _ r | .look _ _ r => repDepth r
+  | .rep _ mx _ r => (if mx = none then 1 else 0) + repDepth r
+  | _ => 0
+
+example : repDepth Gen.Pat.DTDParser_rePE = 2 ∧ ∀ p ∈ parserRegexes, repDepth p.2 ≤ 2 := by decide
 
 end C01
